@@ -359,8 +359,11 @@ class Session:
             sw0 = self.shell_switches() if was_waiting else None
             kind = self.send(a)
             exp = expected[k] if expected is not None and k < len(expected) else None
+            ta = time.time()
             o, status = self.wait_for(exp, start, a["op"] == "J", kind == "line", sw0 if kind == "signal+" else None)
             res["obs"].append(o)
+            if time.time() - ta > 1.5:
+                res.setdefault("slow", []).append("action %d (%s) took %.1fs" % (k, a["op"], time.time() - ta))
             if status == "unstable":
                 res["error"] = "action %d (%s): state still changing after %ss; last %s; tail %r" % (k, a["op"], cfg["t_max"], o, self.text(start)[-300:])
                 return res
